@@ -53,7 +53,8 @@ inductive Err
 
 /-- program counter = the NEXT call the process will make -/
 inductive Pc
-  | start                       -- next: `lock_path.exists()`
+  | start                       -- next: `lock_path.exists()` (guarded shape: `flock(LOCK_EX)` on `.renamify`)
+  | locked                      -- guarded shape only: the guard is held; next: `lock_path.exists()`
   | sawPresent                  -- next: `File::open`
   | opened (ino : Nat)          -- next: `read_to_string`
   | readDone (c : Content)      -- next: the decision (SystemTime::now, kill(pid, 0)); no filesystem call
@@ -78,14 +79,16 @@ inductive FsCall
   | fsWrite | hardLink
   deriving DecidableEq, Repr
 
-/-- the call sequence of `acquire` for the three shapes of the source that the model knows:
+/-- the call sequence of `acquire` for the shapes of the source that the model knows:
     `abandon` = which unparsable lock files are removed, `byLink` = the lock file is published complete
     (`fs::write` of a private temporary file, `fs::hard_link` to the lock path, `remove_file` of the temporary
-    file) instead of `create_new` + `write_all` (+ `remove_file` when that write fails) -/
-def expectedAcquireShape (abandon : Abandon) (byLink : Bool) : List FsCall :=
-  [.exists, .fileOpen, .readToString, .removeFile, .removeFile]
+    file) instead of `create_new` + `write_all` (+ `remove_file` when that write fails), `guarded` = the directory
+    is created first (it is what gets flock'ed) instead of just before the publish -/
+def expectedAcquireShape (abandon : Abandon) (byLink guarded : Bool) : List FsCall :=
+  (if guarded then [.createDirAll] else [])
+  ++ [.exists, .fileOpen, .readToString, .removeFile, .removeFile]
   ++ (match abandon with | .none => [] | _ => [.removeFile])
-  ++ [.createDirAll]
+  ++ (if guarded then [] else [.createDirAll])
   ++ (if byLink then [.fsWrite, .hardLink, .removeFile]
       else [.openOptionsNew, .optWrite, .optCreateNew, .optOpen, .writeAll, .removeFile])
 
@@ -110,6 +113,10 @@ structure State where
   atomicPublish : Bool          -- the lock file appears at its path complete (hard_link of a temporary file)
   saturating : Bool             -- the age is `current_time.saturating_sub(timestamp)` (no panic, no wrap)
   dropChecks : Bool             -- Drop / release_held_locks remove the file only if its content is still ours
+  staleNeedsDead : Bool         -- a lock older than the timeout is removed only if its pid is dead, too
+  lossyRead : Bool              -- the lock file is read as bytes and decoded lossily (not UTF-8 = unparsable)
+  guarded : Bool                -- acquire's and release's inspect-then-change sequences run under flock(.renamify)
+  guard : Option Nat            -- the kernel's advisory lock on `.renamify`: which process holds it
   stolen : Bool                 -- ghost: some process unlinked a file created by another live owner
   deriving Inhabited
 
@@ -128,7 +135,7 @@ def Pc.terminal : Pc → Bool
 def wrapSub (a b : Nat) : Nat := if b ≤ a then a - b else a + 2 ^ 64 - b
 
 /-- the decision taken after reading content `c`, at time `now` with liveness `alive` -/
-def decide' (debug saturating : Bool) (abandon : Abandon) (now : Nat) (alive : Nat → Bool) : Content → Pc
+def decide' (debug saturating needsDead : Bool) (abandon : Abandon) (now : Nat) (alive : Nat → Bool) : Content → Pc
   | .empty =>
     match abandon with
     | .none => .mkdir now
@@ -140,7 +147,12 @@ def decide' (debug saturating : Bool) (abandon : Abandon) (now : Nat) (alive : N
     | _ => .mkdir now
   | .invalid => .mkdir now      -- unreachable: `read_to_string` has failed before
   | .pidts pid ts =>
-    if saturating then
+    if needsDead then
+      -- liveness first: a live holder is never stale (`pid != 0 && is_process_running(pid)`; pid 0 is dead in `alive`)
+      if alive pid then .failed (.alreadyRunning pid)
+      else if (if saturating then now - ts else wrapSub now ts) > staleTimeout then .unlinkPending .stale
+      else .unlinkPending .orphaned
+    else if saturating then
       if now - ts > staleTimeout then .unlinkPending .stale
       else if alive pid then .failed (.alreadyRunning pid)
       else .unlinkPending .orphaned
@@ -163,14 +175,17 @@ def step (s : State) (p : Nat) : Option State :=
       match s.cell with
       | some _ => some { s with pc := upd s.pc p .sawPresent }
       | none => some { s with pc := upd s.pc p (.mkdir s.now) }
+    | .locked => none             -- only in the guarded shape (`gstep`)
     | .sawPresent =>
       match s.cell with
       | some i => some { s with pc := upd s.pc p (.opened i) }
       | none => some { s with pc := upd s.pc p (.failed .readFailed) }
     | .opened i =>
-      if s.files i = .invalid then some { s with pc := upd s.pc p (.failed .readInvalid) }
+      if s.files i = .invalid then
+        if s.lossyRead then some { s with pc := upd s.pc p (.readDone .garbage) }
+        else some { s with pc := upd s.pc p (.failed .readInvalid) }
       else some { s with pc := upd s.pc p (.readDone (s.files i)) }
-    | .readDone c => some { s with pc := upd s.pc p (decide' s.debug s.saturating s.abandon s.now s.alive c) }
+    | .readDone c => some { s with pc := upd s.pc p (decide' s.debug s.saturating s.staleNeedsDead s.abandon s.now s.alive c) }
     | .unlinkPending b =>
       match s.cell with
       | some i => some { s with cell := none, stolen := s.stolen || steals s p i,
@@ -207,10 +222,73 @@ def step (s : State) (p : Nat) : Option State :=
       if s.exits ∧ s.alive (pidOf p) then some { s with alive := upd s.alive (pidOf p) false } else none
   else none
 
+/-- inside one of the guarded sequences (the process holds the flock on `.renamify`) -/
+def Pc.sect : Pc → Bool
+  | .locked | .sawPresent | .opened _ | .readDone _ | .unlinkPending _ | .mkdir _ | .create _ | .dropUnlink => true
+  | _ => false
+
+/-- One call of process `p` in the GUARDED shape of `lock.rs` (seeded/_fixes/c12_1_guard_lock_file_sequences.diff):
+      acquire:  create_dir_all (no effect) → flock(.renamify, LOCK_EX) → exists → open → read → decision → (remove)
+                → write temp + hard_link publish → flock(LOCK_UN)
+      drop:     flock(LOCK_EX) → content check → (remove) → flock(LOCK_UN)
+    `flock` is a kernel mutex: a call on a lock held by another process does not return (`none`: the process cannot
+    move); it is released by LOCK_UN, which is the process's next call after the last guarded one and is folded
+    into it (nobody can observe the difference: every other access to the lock file needs the guard), and by
+    the kernel when the holder dies (no process dies inside a guarded sequence in this model: crashes are
+    initial states).  The lock file is published complete (this shape has no `created` state). -/
+def gstep (s : State) (p : Nat) : Option State :=
+  if p < s.n then
+    match s.pc p with
+    | .start =>
+      if s.guard = none then some { s with guard := some p, pc := upd s.pc p .locked } else none
+    | .locked =>
+      match s.cell with
+      | some _ => some { s with pc := upd s.pc p .sawPresent }
+      | none => some { s with pc := upd s.pc p (.mkdir s.now) }
+    | .sawPresent =>
+      match s.cell with
+      | some i => some { s with pc := upd s.pc p (.opened i) }
+      | none => some { s with guard := none, pc := upd s.pc p (.failed .readFailed) }
+    | .opened i =>
+      if s.files i = .invalid then
+        if s.lossyRead then some { s with pc := upd s.pc p (.readDone .garbage) }
+        else some { s with guard := none, pc := upd s.pc p (.failed .readInvalid) }
+      else some { s with pc := upd s.pc p (.readDone (s.files i)) }
+    | .readDone c =>
+      let v := decide' s.debug s.saturating s.staleNeedsDead s.abandon s.now s.alive c
+      some { s with guard := if v.terminal then none else s.guard, pc := upd s.pc p v }
+    | .unlinkPending w =>
+      match s.cell with
+      | some i => some { s with cell := none, stolen := s.stolen || steals s p i, pc := upd s.pc p (.mkdir s.now) }
+      | none => some { s with guard := none, pc := upd s.pc p (.failed (.removeFailed w)) }
+    | .mkdir ts => some { s with pc := upd s.pc p (.create ts) }
+    | .create ts =>
+      match s.cell with
+      | none => some { s with cell := some (inoOf p), files := upd s.files (inoOf p) (.pidts (pidOf p) ts),
+                              guard := none, pc := upd s.pc p .holding }
+      | some _ => some { s with guard := none, pc := upd s.pc p (.failed .createExists) }
+    | .created _ => none
+    | .holding => some { s with pc := upd s.pc p .dropCheck }
+    | .dropCheck =>
+      if s.guard = some p then
+        match s.cell with
+        | some i =>
+          if s.dropChecks ∧ i ≠ inoOf p then some { s with guard := none, pc := upd s.pc p .done }
+          else some { s with pc := upd s.pc p .dropUnlink }
+        | none => some { s with guard := none, pc := upd s.pc p .done }
+      else if s.guard = none then some { s with guard := some p } else none
+    | .dropUnlink =>
+      match s.cell with
+      | some i => some { s with cell := none, stolen := s.stolen || steals s p i, guard := none, pc := upd s.pc p .done }
+      | none => some { s with guard := none, pc := upd s.pc p .done }
+    | .done | .failed _ | .panicked =>
+      if s.exits ∧ s.alive (pidOf p) then some { s with alive := upd s.alive (pidOf p) false } else none
+  else none
+
 /-- SIGINT at the confirmation prompt of a process that is inside its command: `release_held_locks`
     unlinks the lock path without looking at it, then the process exits (its next `step` is the exit) -/
 def promptExit (s : State) (p : Nat) : State :=
-  if p < s.n ∧ s.pc p = .holding then
+  if p < s.n ∧ s.pc p = .holding ∧ (s.guarded = true → s.guard = none) then
     match s.cell with
     | some i =>
       if s.dropChecks ∧ i ≠ inoOf p then { s with pc := upd s.pc p .done }
@@ -226,7 +304,7 @@ inductive Ev
   deriving DecidableEq, Repr
 
 def stepEv (s : State) : Ev → State
-  | .proc p => (step s p).getD s
+  | .proc p => if s.guarded then (gstep s p).getD s else (step s p).getD s
   | .tick d => { s with now := s.now + d }
   | .promptInt p => promptExit s p
 
@@ -250,10 +328,15 @@ def base (n now : Nat) (debug exits : Bool) : State :=
   { n := n, cell := none, files := fun _ => .empty, now := now,
     alive := fun pid => decide (2 ≤ pid ∧ pid < n + 2),
     pc := fun _ => .start, debug := debug, exits := exits, abandon := .none, atomicPublish := false, saturating := false, dropChecks := false,
-    stolen := false }
+    staleNeedsDead := false, lossyRead := false, guarded := false, guard := none, stolen := false }
 
 /-- the same state for the source WITH the empty-file branch -/
 def withEmptyBranch (s : State) : State := { s with abandon := .empty }
+
+/-- the guarded shape with all repairs (HEAD + seeded/_fixes/c12_1 … c12_3) -/
+def withGuard (s : State) : State :=
+  { s with guarded := true, atomicPublish := true, abandon := .unparsable, saturating := true, dropChecks := true,
+           staleNeedsDead := true, lossyRead := true }
 
 /-- the two small repairs of `lock.rs` -/
 def withSaturating (s : State) : State := { s with saturating := true }
